@@ -171,6 +171,8 @@ type C20Case struct {
 	Priv bool // the message carries a private dictionary that names the codes differently
 	// Share: equal group subtrees are one node object attached in several places
 	Share bool `json:",omitempty"`
+	// AppPaths: the application-scoped path family (c20AppPaths)
+	AppPaths bool `json:",omitempty"`
 }
 
 // c20HasRepeat reports whether a group subtree occurs more than once in the forest.
@@ -546,10 +548,81 @@ func c20Enum(ctx *ev.Ctx, fn func(C20Case)) string {
 			}
 		}
 	}
-	return "all AVP trees over two leaf codes, two grouped codes and one leaf that carries the code of a Grouped AVP under a foreign vendor id (opaque data, not a group) and one container whose code the dictionary declares as OctetString but which the application assembled as a group: every single node of nesting depth <=3 with inner width <=3 (outermost group: <=2 children quick, <=3 thorough), alone and next to a leaf in both orders; every ordered pair (and a family of triples) of depth-<=2 nodes; empty groups, repeated codes at several depths, groups in groups; leaves with codes 2147483648 and 3000000000 (private dictionary; asked for as uint32, as int and by name); chains of 1..40 nested groups (innermost empty or holding a leaf, with or without a sibling leaf at every level). Per tree: FindAVP and FindAVPs by uint32, int and name for every code of the alphabet, a defined but absent code, an undefined code and an undefined name; FindAVPsWithPath for every path of length <=3 over the alphabet plus the absent code, alternating number (uint32 or int) and name per step, and paths with an unresolvable element in front of, between and behind resolvable ones (never an AVP). Every tree is searched twice: in a message carrying dict.Default and in one carrying a private dictionary that names the four codes differently and attaches the default names to codes absent from the tree (a name must resolve through the message's own dictionary). After the first round of queries each message is edited without going through Message.AddAVP / InsertAVP (a member added to its first group, its first top-level AVP cut out of the exported slice, its AVPs replaced by Marshal) and every query is asked again. Path searches are also made overlapping in time (a nested search on another message, started from inside the outer one through a caller-defined data type) after a search whose path did not resolve. Every tree in which a group subtree occurs more than once is also built with ONE node object for all its occurrences (a prebuilt group attached in several places): every occurrence must still be reported, in pre-order. Results are compared by pointer identity with a pre-order reference walk / strict per-level match."
+	return "all AVP trees over two leaf codes, two grouped codes and one leaf that carries the code of a Grouped AVP under a foreign vendor id (opaque data, not a group) and one container whose code the dictionary declares as OctetString but which the application assembled as a group: every single node of nesting depth <=3 with inner width <=3 (outermost group: <=2 children quick, <=3 thorough), alone and next to a leaf in both orders; every ordered pair (and a family of triples) of depth-<=2 nodes; empty groups, repeated codes at several depths, groups in groups; leaves with codes 2147483648 and 3000000000 (private dictionary; asked for as uint32, as int and by name); chains of 1..40 nested groups (innermost empty or holding a leaf, with or without a sibling leaf at every level). Per tree: FindAVP and FindAVPs by uint32, int and name for every code of the alphabet, a defined but absent code, an undefined code and an undefined name; FindAVPsWithPath for every path of length <=3 over the alphabet plus the absent code, alternating number (uint32 or int) and name per step, and paths with an unresolvable element in front of, between and behind resolvable ones (never an AVP). Every tree is searched twice: in a message carrying dict.Default and in one carrying a private dictionary that names the four codes differently and attaches the default names to codes absent from the tree (a name must resolve through the message's own dictionary). After the first round of queries each message is edited without going through Message.AddAVP / InsertAVP (a member added to its first group, its first top-level AVP cut out of the exported slice, its AVPs replaced by Marshal) and every query is asked again. Path searches are also made overlapping in time (a nested search on another message, started from inside the outer one through a caller-defined data type) after a search whose path did not resolve. Every tree in which a group subtree occurs more than once is also built with ONE node object for all its occurrences (a prebuilt group attached in several places): every occurrence must still be reported, in pre-order. Messages of a non-zero application: paths through groups the base application defines into AVPs only the message's application defines (Credit-Control, and a private dictionary that gives one name two codes in two applications). Results are compared by pointer identity with a pre-order reference walk / strict per-level match."
+}
+
+// c20AppPaths: messages of a NON-ZERO application. Every element of a path resolves through the
+// message's dictionary FOR THE MESSAGE'S APPLICATION - also behind a group that the base application
+// defines (the group's defining application plays no part).
+func c20AppPaths() string {
+	type pq struct {
+		keys  []interface{}
+		codes []uint32
+	}
+	check := func(m *diam.Message, qs []pq, what string) string {
+		for _, q := range qs {
+			want := refPath(m.AVP, q.codes)
+			got, err := m.FindAVPsWithPath(q.keys, 0)
+			if len(want) > 0 && (err != nil || !samePtrs(got, want)) {
+				return fmt.Sprintf("%s: FindAVPsWithPath(%v): %d AVPs (err %v), the per-level walk with every element resolved for the message's application finds %d", what, q.keys, len(got), err, len(want))
+			}
+			if len(want) == 0 && err == nil && len(got) != 0 {
+				return fmt.Sprintf("%s: FindAVPsWithPath(%v): %d AVPs, the per-level walk finds none", what, q.keys, len(got))
+			}
+		}
+		return ""
+	}
+	// 1. default dictionary, Credit-Control (application 4): Failed-AVP and Proxy-Info come from the
+	// base application, CC-Request-Type (416) and CC-Request-Number (415) from application 4
+	m := diam.NewMessage(272, 0, 4, 1, 1, dict.Default)
+	inner := &diam.GroupedAVP{AVP: []*diam.AVP{diam.NewAVP(416, 0x40, 0, datatype.Enumerated(1)), diam.NewAVP(264, 0x40, 0, datatype.DiameterIdentity("h"))}}
+	deep := &diam.GroupedAVP{AVP: []*diam.AVP{diam.NewAVP(279, 0x40, 0, inner), diam.NewAVP(415, 0x40, 0, datatype.Unsigned32(3))}}
+	m.AddAVP(diam.NewAVP(416, 0x40, 0, datatype.Enumerated(2)))
+	m.AddAVP(diam.NewAVP(279, 0x40, 0, inner))
+	m.AddAVP(diam.NewAVP(284, 0x40, 0, deep))
+	if s := check(m, []pq{
+		{[]interface{}{279, 416}, []uint32{279, 416}}, {[]interface{}{"Failed-AVP", "CC-Request-Type"}, []uint32{279, 416}}, {[]interface{}{uint32(279), "CC-Request-Type"}, []uint32{279, 416}},
+		{[]interface{}{"Failed-AVP", 416}, []uint32{279, 416}}, {[]interface{}{284, 279, 416}, []uint32{284, 279, 416}}, {[]interface{}{"Proxy-Info", "CC-Request-Number"}, []uint32{284, 415}},
+		{[]interface{}{"Proxy-Info", "Failed-AVP", "CC-Request-Type"}, []uint32{284, 279, 416}}, {[]interface{}{279, 264}, []uint32{279, 264}}, {[]interface{}{"Failed-AVP", "CC-Request-Number"}, []uint32{279, 415}},
+	}, "Credit-Control answer (application 4, default dictionary)"); s != "" {
+		return s
+	}
+	// 2. a private dictionary in which the name "Item" is code 9001 in the base application and code
+	// 9002 in application 7777, and the group "Box" exists in the base application only
+	p, err := dict.NewParser()
+	if err == nil {
+		err = p.Load(strings.NewReader(`<?xml version="1.0" encoding="UTF-8"?><diameter>
+<application id="0" name="Base"><command code="257" short="CE" name="Capabilities-Exchange"><request><rule avp="Box" required="false"/></request><answer><rule avp="Box" required="false"/></answer></command>
+<avp name="Box" code="9000" must="M"><data type="Grouped"/></avp><avp name="Item" code="9001" must="M"><data type="Unsigned32"/></avp></application>
+<application id="7777" type="auth" name="Seven"><avp name="Item" code="9002" must="M"><data type="Unsigned32"/></avp></application></diameter>`))
+	}
+	if err != nil {
+		return ""
+	}
+	for _, app := range []uint32{0, 7777} {
+		m := diam.NewMessage(257, 0x80, app, 1, 1, p)
+		box := &diam.GroupedAVP{AVP: []*diam.AVP{diam.NewAVP(9001, 0x40, 0, datatype.Unsigned32(1)), diam.NewAVP(9002, 0x40, 0, datatype.Unsigned32(2))}}
+		m.AddAVP(diam.NewAVP(9000, 0x40, 0, box))
+		item := map[uint32]uint32{0: 9001, 7777: 9002}[app]
+		qs := []pq{{[]interface{}{"Box", "Item"}, []uint32{9000, item}}, {[]interface{}{9000, "Item"}, []uint32{9000, item}}, {[]interface{}{"Box", 9001}, []uint32{9000, 9001}}}
+		if app == 7777 {
+			qs = append(qs, pq{[]interface{}{"Box", 9002}, []uint32{9000, 9002}}) // code 9002 is defined for application 7777 only
+		}
+		if s := check(m, qs,
+			fmt.Sprintf("private dictionary, message of application %d", app)); s != "" {
+			return s
+		}
+	}
+	return ""
 }
 
 func runC20(ctx *ev.Ctx) {
+	if ctx.Mine() {
+		ctx.Eval(ev.HS("application-scoped paths"))
+		if what := c20AppPaths(); what != "" {
+			ctx.Report("", generalise(what), what, C20Case{AppPaths: true})
+		}
+	}
 	n := 0
 	var queries int64
 	ctx.Rule = c20Enum(ctx, func(cs C20Case) {
@@ -582,6 +655,9 @@ func replayC20(ctx *ev.Ctx, raw json.RawMessage) string {
 	var cs C20Case
 	if err := json.Unmarshal(raw, &cs); err != nil {
 		ev.Infra("replay: %v", err)
+	}
+	if cs.AppPaths {
+		return c20AppPaths()
 	}
 	fmt.Println("  tree:", treeString(cs.Tree))
 	what, _ := c20Eval(cs)
